@@ -2071,6 +2071,39 @@ func c15CheckStreamLister(c *Ctx, R4 string, f *ssa.Function, cb ssa.CallInstruc
 		}
 	}
 	seq := collect.Call.Args[0]
+	// maps.Keys(m) of a map pruned with maps.DeleteFunc(m, pred): the remaining keys are those for which pred is false
+	if kc, isCall := strip(seq).(*ssa.Call); isCall && CalleeName(kc) == "maps.Keys" {
+		pruned := func(base func(fn *ssa.Function, sets []map[ssa.Value]bool) c13CondClass) (bool, string) {
+			m := kc.Call.Args[0]
+			mal := Aliases(m)
+			for _, dc := range Calls(f, func(n string) bool { return n == "maps.DeleteFunc" }) {
+				da := dc.Common().Args
+				if len(da) != 2 || !(mal[da[0]] || SameValue(da[0], m)) || !MustPass(kc, newCut().Instr(dc.(ssa.Instruction))) {
+					continue
+				}
+				o := c13OriginOf(da[1], top)
+				var kf *c13Frame
+				switch k := o.Val.(type) {
+				case *ssa.MakeClosure:
+					kf = &c13Frame{Fn: k.Fn.(*ssa.Function), MC: k, Parent: o.Frame}
+				case *ssa.Function:
+					kf = &c13Frame{Fn: k, Parent: top}
+				}
+				if kf == nil || len(kf.Fn.Blocks) == 0 || len(kf.Fn.Params) == 0 {
+					continue
+				}
+				if _, hf := c13PredicateImplies(kf, base, setsOf, Aliases(kf.Fn.Params[0]), 3); hf {
+					return true, ""
+				}
+			}
+			return false, "no maps.DeleteFunc on the listed map removes the entries violating the condition before its keys are taken"
+		}
+		okAfter, whyA := pruned(c15AfterOrNoLastBase)
+		c.Check(R4, fn+"|only-tags-after-last", cb.Pos(), okAfter, ifelse(okAfter, "the keys listed are those left after deleting every entry with last != \"\" && tag <= last", "a tag not after `last` can be listed: "+whyA))
+		okDg, whyD := pruned(c15NotDigestBase)
+		c.Check(R4, fn+"|digest-entries-skipped", cb.Pos(), okDg, ifelse(okDg, "the keys listed are those left after deleting every entry named by its own digest", "digest-named entries of the tag map can be listed as tags: "+whyD))
+		return
+	}
 	okAfter, whyA := c13StreamHasFact(seq, top, mk(c15AfterOrNoLastBase), 16)
 	c.Check(R4, fn+"|only-tags-after-last", cb.Pos(), okAfter, ifelse(okAfter, "every element of the iterator pipeline passed last == \"\" or tag > last", "a tag not after `last` can be listed: "+whyA))
 	okDg, whyD := c13StreamHasFact(seq, top, mk(c15NotDigestBase), 16)
